@@ -40,6 +40,33 @@ impl Ord for TrainDispNext {
     }
 }
 
+/// Verification observer (compiled only with `--cfg altrios_verif`): lets a test harness look at
+/// the dispatcher's internal authority tables after every train move. Add-only; with the cfg
+/// off nothing here exists.
+#[cfg(altrios_verif)]
+pub mod verif_hook {
+    use std::cell::RefCell;
+    /// Called with (event, moved train index, JSON of (link_disp_auths, links_blocked, train_disps))
+    pub type Observer = Box<dyn FnMut(&str, usize, String)>;
+    thread_local! {
+        pub static OBSERVER: RefCell<Option<Observer>> = RefCell::new(None);
+    }
+    pub fn set(obs: Option<Observer>) {
+        OBSERVER.with(|o| *o.borrow_mut() = obs);
+    }
+    pub(super) fn observe<T: serde::Serialize>(event: &str, train_idx: usize, snapshot: &T) {
+        OBSERVER.with(|o| {
+            if let Some(f) = o.borrow_mut().as_mut() {
+                f(
+                    event,
+                    train_idx,
+                    serde_json::to_string(snapshot).unwrap_or_default(),
+                );
+            }
+        });
+    }
+}
+
 /// Checks deadlock for all trains in the simulation after one train was moved.
 /// Returns true if there is deadlock (at least one free path was not successfully modified), false otherwise
 fn check_deadlock(
@@ -246,7 +273,15 @@ pub fn run_dispatch<N: AsRef<[Link]>>(
                 debug_assert!(train_idx != train_idx_curr);
             });
         }
+        #[cfg(altrios_verif)]
+        verif_hook::observe(
+            "move",
+            train_idx_curr.idx(),
+            &(&link_disp_auths, &links_blocked, &train_disps),
+        );
     }
+    #[cfg(altrios_verif)]
+    verif_hook::observe("final", 0, &(&link_disp_auths, &links_blocked, &train_disps));
     if !train_idxs_blocked.is_empty() {
         bail!("The following trains got stuck! {:?}", train_idxs_blocked);
     }
